@@ -73,7 +73,11 @@ func shapeOf(fn *ssa.Function) fnShape {
 	if fn.Parent() != nil {
 		parent = "in " // only the fact of being nested: the parent's own name may have been renumbered
 	}
-	sh.FP = parent + types.TypeString(fn.Signature, q) + " | " + strings.Join(fvt, ",")
+	recv := ""
+	if r := fn.Signature.Recv(); r != nil {
+		recv = "(" + types.TypeString(r.Type(), q) + ") "
+	}
+	sh.FP = parent + recv + types.TypeString(fn.Signature, q) + " | " + strings.Join(fvt, ",")
 	return sh
 }
 
@@ -81,6 +85,27 @@ func writeShapes(P *Program, dir string) {
 	m := map[string]fnShape{}
 	for _, fn := range P.ModFuncs {
 		m[shapeKey(fn)] = shapeOf(fn)
+	}
+	for _, pkg := range P.Pkgs {
+		if !inModule(pkg.Types) {
+			continue
+		}
+		sc := pkg.Types.Scope()
+		for _, n := range sc.Names() {
+			tn, ok := sc.Lookup(n).(*types.TypeName)
+			if !ok {
+				continue
+			}
+			st, ok := tn.Type().Underlying().(*types.Struct)
+			if !ok {
+				continue
+			}
+			var sh fnShape
+			for i := 0; i < st.NumFields(); i++ {
+				sh.Locals = append(sh.Locals, [2]string{st.Field(i).Name(), types.TypeString(st.Field(i).Type(), func(p *types.Package) string { return p.Name() })})
+			}
+			m["struct::"+pkg.Types.Path()+"."+n] = sh
+		}
 	}
 	data, _ := json.MarshalIndent(m, "", " ")
 	os.MkdirAll(dir, 0o755)
@@ -365,4 +390,168 @@ func renameIdentsShadow(e *Expr, ren map[string]string) *Expr {
 		n.Args = append(n.Args, na)
 	}
 	return &n
+}
+
+
+// fieldRenames: struct fields renamed in place (same struct, same position, same type, the
+// old name gone from every struct of the module): old name -> new name.
+func (P *Program) fieldRenames(shapes map[string]fnShape) map[string]string {
+	ren := map[string]string{}
+	if shapes == nil {
+		return ren
+	}
+	current := map[string]bool{}
+	type cur struct{ fields [][2]string }
+	structs := map[string]cur{}
+	q := func(p *types.Package) string { return p.Name() }
+	for _, pkg := range P.Pkgs {
+		if !inModule(pkg.Types) {
+			continue
+		}
+		sc := pkg.Types.Scope()
+		for _, n := range sc.Names() {
+			tn, ok := sc.Lookup(n).(*types.TypeName)
+			if !ok {
+				continue
+			}
+			st, ok := tn.Type().Underlying().(*types.Struct)
+			if !ok {
+				continue
+			}
+			var c cur
+			for i := 0; i < st.NumFields(); i++ {
+				c.fields = append(c.fields, [2]string{st.Field(i).Name(), types.TypeString(st.Field(i).Type(), q)})
+				current[st.Field(i).Name()] = true
+			}
+			structs["struct::"+pkg.Types.Path()+"."+n] = c
+		}
+	}
+	var keys []string
+	for k := range shapes {
+		if strings.HasPrefix(k, "struct::") {
+			keys = append(keys, k)
+		}
+	}
+	sort.Strings(keys)
+	for _, k := range keys {
+		old := shapes[k].Locals
+		c, ok := structs[k]
+		if !ok || len(c.fields) != len(old) {
+			continue
+		}
+		same := true
+		for i := range old {
+			if old[i][1] != c.fields[i][1] {
+				same = false
+			}
+		}
+		if !same {
+			continue
+		}
+		for i := range old {
+			if old[i][0] != c.fields[i][0] && !current[old[i][0]] {
+				if prev, dup := ren[old[i][0]]; !dup || prev == c.fields[i][0] {
+					ren[old[i][0]] = c.fields[i][0]
+					P.Rebound = append(P.Rebound, fmt.Sprintf("field %s.%s renamed to %s in the contracts", strings.TrimPrefix(k, "struct::"), old[i][0], c.fields[i][0]))
+				}
+			}
+		}
+	}
+	return ren
+}
+
+// renameFields rewrites field selections (x.old -> x.new) in every clause of a contract.
+func renameFieldsInContract(ct *Contract, ren map[string]string) {
+	if len(ren) == 0 {
+		return
+	}
+	var rn func(e *Expr) *Expr
+	rn = func(e *Expr) *Expr {
+		if e == nil {
+			return nil
+		}
+		n := *e
+		if e.Kind == "sel" {
+			if r, ok := ren[e.Name]; ok {
+				n.Name = r
+			}
+		}
+		n.Args = nil
+		for _, a := range e.Args {
+			n.Args = append(n.Args, rn(a))
+		}
+		return &n
+	}
+	rc := func(cls []*Clause) {
+		for _, cl := range cls {
+			cl.Expr = rn(cl.Expr)
+		}
+	}
+	rc(ct.Requires)
+	rc(ct.Assumes)
+	rc(ct.Ensures)
+	rc(ct.OnClose)
+	for _, cls := range ct.LoopInv {
+		rc(cls)
+	}
+	for _, cls := range ct.LoopEns {
+		rc(cls)
+	}
+	for _, cls := range ct.LoopAsm {
+		rc(cls)
+	}
+	for _, cl := range ct.LoopDec {
+		if cl != nil {
+			cl.Expr = rn(cl.Expr)
+		}
+	}
+	for k, es := range ct.LoopMod {
+		for i := range es {
+			ct.LoopMod[k][i] = rn(es[i])
+		}
+	}
+	for i := range ct.Modifies {
+		ct.Modifies[i] = rn(ct.Modifies[i])
+	}
+}
+
+// renamedFunctions: contract names that no longer exist, bound to the one new function of the
+// same package with the recorded fingerprint and parameter names (a function was renamed).
+func (P *Program) renamedFunctions(byRel map[string]*ssa.Function, shapes map[string]fnShape) map[string]*ssa.Function {
+	out := map[string]*ssa.Function{}
+	if shapes == nil {
+		return out
+	}
+	for _, c := range P.Spec.Contracts {
+		if c.Kind != "func" {
+			continue
+		}
+		key := c.Pkg + "::" + c.Name
+		if byRel[key] != nil || closureParent(c.Name) != "" {
+			continue
+		}
+		old, ok := shapes[key]
+		if !ok {
+			continue
+		}
+		var cands []*ssa.Function
+		for _, fn := range P.ModFuncs {
+			if fn.Parent() != nil || fnPkg(fn).Path() != c.Pkg {
+				continue
+			}
+			k2 := shapeKey(fn)
+			if _, known := shapes[k2]; known {
+				continue // existed under this name before: not a renamed function
+			}
+			sh := shapeOf(fn)
+			if sh.FP == old.FP && fmt.Sprint(sh.Params) == fmt.Sprint(old.Params) {
+				cands = append(cands, fn)
+			}
+		}
+		if len(cands) == 1 {
+			out[key] = cands[0]
+			P.Rebound = append(P.Rebound, fmt.Sprintf("contract %s bound to %s (function renamed)", c.Name, cands[0].RelString(fnPkg(cands[0]))))
+		}
+	}
+	return out
 }
